@@ -171,31 +171,58 @@ def run(ctx):
     ctx.ob("R5.siblings", "leaf-predicate|%s:count_leaves/traverse" % FR, P.where(cnt.body),
            "count_leaves (array sizes) and the walk (array indices) decide 'leaf' by the same predicate", okp)
 
-    # ---- (4) growth
-    ens = P.fn("schema_ensure_capacity", SC)
-    re_ = ens.calls("realloc")
-    cz = Canon(ens, inline=False)
-    sizes = []
-    fields = []
-    for c in re_:
-        t = cz(c.args()[1])
-        fields.append([x.name for x in c.args()[0].walk() if x.k == "MemberExpr"][-1:] or ["?"])
-        sizes.append(tuple(sorted(repr(s) for s in subtrees(t) if s[0] == "local")))
-    ctx.ob("R5.siblings", "growth-same-capacity|%s:schema_ensure_capacity" % SC, P.where(ens.body),
-           "elements, leaf_indices, max_def_levels and max_rep_levels are reallocated to the same new capacity",
-           len(re_) == 4 and len(set(sizes)) == 1 and
-           sorted(f[0] for f in fields) == ["elements", "leaf_indices", "max_def_levels", "max_rep_levels"],
-           "fields %s" % fields)
+    # ---- (4) growth: the two element-adding entry points, executed abstractly on a full schema (realloc
+    # hooked, each of the four reallocations made to fail in turn): all four parallel arrays are regrown
+    # for one and the same new capacity that holds the new element, before anything is stored; a failed
+    # growth is reported and stores nothing
+    from ..rules import sem
+    so4 = sem.field_offsets(P, "carquet_schema")
+    esz4 = P.record("parquet_schema_element")["size"]
+    elem_sz = {"elements": esz4, "leaf_indices": 4, "max_def_levels": 2, "max_rep_levels": 2}
     for fn in (ac, P.fn("carquet_schema_add_group", SC)):
-        call = fn.calls("schema_ensure_capacity")
-        stores = [a for a in fn.body.walk() if is_assign(a) and any(
-            x.k == "MemberExpr" and x.name in ("leaf_indices", "max_def_levels", "max_rep_levels") for x in a.c[0].walk())]
-        elems = [n for n in fn.body.walk() if n.k == "UnaryOperator" and n.op == "&" and "elements" in src(n)]
-        okd = len(call) == 1 and all(fn.cfg.node_dominates(call[0], s) for s in stores + elems) and \
-            "num_elements" in src(call[0].args()[1])
-        ctx.ob("R6.dominate", "growth-first|%s:%s" % (SC, fn.name), P.where(fn.body),
-               "%s ensures capacity for num_elements+1 before it touches the arrays, and stops on failure" % fn.name,
-               okd and _status_checked(fn, call[0]) if call else False)
+        bad = None
+        nsc = 0
+        try:
+            for cap0 in (4, 16):
+                for fail_at in (None, 0, 1, 2, 3):
+                    nsc += 1
+                    heap0 = {("s", so4["num_elements"]): cap0, ("s", so4["capacity"]): cap0, ("s", so4["num_leaves"]): cap0 - 1,
+                             ("s", so4["elements"]): sem.Ptr("els", 0, esz4), ("s", so4["leaf_indices"]): sem.Ptr("li", 0, 4),
+                             ("s", so4["max_def_levels"]): sem.Ptr("mdl", 0, 2), ("s", so4["max_rep_levels"]): sem.Ptr("mrl", 0, 2),
+                             ("els", sem.field_offsets(P, "parquet_schema_element")["num_children"]): 2}
+                    names = {"els": "elements", "li": "leaf_indices", "mdl": "max_def_levels", "mrl": "max_rep_levels"}
+                    k = [0]
+
+                    def rea(ev, a, it, fail_at=fail_at):
+                        i_ = k[0]
+                        k[0] += 1
+                        ev.append(("realloc", getattr(a[0], "base", a[0]), a[1]))
+                        return 0 if fail_at == i_ else a[0]
+                    hooks = {"realloc": rea, "memset": lambda ev, a, it: a[0], "carquet_arena_strdup": lambda ev, a, it: sem.Ptr("dup", 0, 1)}
+                    args = [sem.Ptr("s", 0, 1), sem.Ptr("name", 0, 1)] + ([1, 0, 0, 0] if fn is ac else [0, 0])
+                    ret, ev, heap = sem.run(P, fn, args, heap0=heap0, hooks=hooks, single=True, max_forks=64, on_start=lambda: k.__setitem__(0, 0))
+                    sc = "capacity %d full%s" % (cap0, "" if fail_at is None else ", reallocation %d fails" % fail_at)
+                    res = [e for e in ev if e[0] == "realloc"]
+                    failed = (isinstance(ret, int) and (ret < 0 if fn is not ac else ret != 0))
+                    if fail_at is not None:
+                        if not failed or heap.get(("s", so4["num_elements"])) != cap0:
+                            bad = bad or "%s: returns %s with num_elements %s" % (sc, ret, heap.get(("s", so4["num_elements"])))
+                        continue
+                    caps = {}
+                    for _r, base_, nbytes in res:
+                        if base_ in names and isinstance(nbytes, int):
+                            caps[names[base_]] = nbytes // elem_sz[names[base_]]
+                    if failed or set(caps) != set(elem_sz) or len(set(caps.values())) != 1 or min(caps.values()) <= cap0 or \
+                            heap.get(("s", so4["capacity"])) != min(caps.values()) or heap.get(("s", so4["num_elements"])) != cap0 + 1:
+                        bad = bad or "%s: returns %s, arrays regrown for %s elements, capacity recorded %s, num_elements %s" % (
+                            sc, ret, caps, heap.get(("s", so4["capacity"])), heap.get(("s", so4["num_elements"])))
+            ctx.ob("R5.siblings", "growth|%s:%s" % (SC, fn.name), P.where(fn.body),
+                   "%s on a full schema regrows elements, leaf_indices, max_def_levels and max_rep_levels for the same new capacity "
+                   "(> the old one) before appending, and a failed reallocation is reported without appending (%d scenarios, abstract "
+                   "execution)" % (fn.name, nsc), bad is None, bad or "")
+        except (sem.Inconclusive, KeyError) as ex:
+            ctx.inconclusive("R5.siblings", "growth|%s:%s" % (SC, fn.name), P.where(fn.body), "abstract execution of %s" % fn.name,
+                             "%s: %s" % (type(ex).__name__, ex))
 
     # ---- (5) accessors
     for nm, field in (("carquet_schema_node_name", "name"), ("carquet_schema_node_physical_type", "type"),
